@@ -769,21 +769,25 @@ Qed.
 
 Theorem block_step_Full c s la lq : Full s la lq ->
   exists la' lq', Full (step c s OBlock) la' lq' /\ (forall x, In x la -> x <> get_exit s (blk s + 1) -> In x la') /\
-    (forall x, held_by (step c s OBlock) x = held_by s x).
+    (forall x, held_by (step c s OBlock) x = held_by s x) /\ blk (step c s OBlock) = blk s + 1.
 Proof.
-  intros HF. unfold step. destruct (run_op c OBlock s) as [[s' x]| |] eqn:E; [|exists la, lq; auto|exists la, lq; auto].
-  cbn [run_op] in E. bstep E r Hr. destruct r as [[s1 ac] up]. inversion E; subst s' x; clear E.
+  intros HF. unfold step. cbn [run_op].
   set (b := blk s + 1) in *. set (s0 := w_blk b s) in *.
   assert (F0 : Full s0 la lq) by (apply Full_w_blk; auto; unfold b; lia).
-  destruct (sync_pos_cases _ _ _ _ _ _ Hr) as [->|[t [Hc Ha]]]; [exists la, lq; auto|].
+  destruct (sync_pos c b s0) as [[[s1 ac] up]| |] eqn:Hr;
+    [|exists la, lq; split; [auto|split; [auto|split; [intros; reflexivity|reflexivity]]]
+     |exists la, lq; split; [auto|split; [auto|split; [intros; reflexivity|reflexivity]]]].
+  destruct (sync_pos_cases _ _ _ _ _ _ Hr) as [->|[t [Hc Ha]]];
+    [exists la, lq; split; [auto|split; [auto|split; [intros; reflexivity|reflexivity]]]|].
   destruct (compute_facts c b s0 la lq t F0 Hc) as [Hren [Hex [Hnd Hev]]].
   change (get_exit s0 b) with (get_exit s b) in Hex.
-  destruct (apply_epoch_transition_ok c b t s0 la lq s1 F0 Hren) as [la' [lq' [F' [_ [Sub Hh]]]]]; auto.
+  destruct (apply_epoch_transition_ok c b t s0 la lq s1 F0 Hren) as [la' [lq' [F' [Bk [Sub Hh]]]]]; auto.
   - intros Hz. rewrite Hex in *. destruct (j_exit _ (f_2 _ _ _ HF) b (get_exit s b) eq_refl Hz) as [v [Hv [Hs He]]]; [unfold b; lia|].
     exists v, b. repeat split; auto. cbn. lia.
   - intros a Ha'. split; [apply Hev; auto|]. destruct (N.eq_dec (tr_exit t) 0) as [Hz|Hz]; [left; auto|right].
     intros ->. destruct (Hev _ Ha') as [v [Hv [Hs He]]]. rewrite Hex in *.
     destruct (j_exit _ (f_2 _ _ _ HF) b (get_exit s b) eq_refl Hz) as [v' [Hv' [_ He']]]; [unfold b; lia|].
     change (getv s0 (get_exit s b)) with (getv s (get_exit s b)) in Hv. assert (v' = v) by congruence. subst v'. congruence.
-  - exists la', lq'. split; auto. split; [intros x Hx Hne; apply Sub; auto; rewrite Hex; auto|]. intros x. rewrite Hh. reflexivity.
+  - exists la', lq'. split; auto. split; [intros x Hx Hne; apply Sub; auto; rewrite Hex; auto|].
+    split; [intros x; rewrite Hh; reflexivity|rewrite Bk; reflexivity].
 Qed.
